@@ -666,7 +666,7 @@ func newPrio(c Cfg, w *vrt.World) *explore.Instance {
 			o := prio1.Opts[Item]{Divider: divw.v1, Feedback: feedback, HandlersQuantity: c.H, Inputs: inMap, Output: output}
 			if c.UserCtx {
 				o.Ctx, v1.cancel = newUserCtx()
-			} else if c.Stop == "cancel" || c.Stop == "both" || c.Stop == "precancel" {
+			} else if c.Stop == "cancel" || c.Stop == "both" || c.Stop == "precancel" || c.Stop == "cancel+graceful" {
 				o.Ctx, v1.cancel = vcontext.WithCancel(vcontext.Background())
 			}
 			if c.Stop == "precancel" {
@@ -713,7 +713,7 @@ func newPrio(c Cfg, w *vrt.World) *explore.Instance {
 			o := prio1.SimpleOpts[Item]{Divider: divw.v1, Handle: handle, HandlersQuantity: c.H, Inputs: inMap}
 			if c.UserCtx {
 				o.Ctx, v1.cancel = newUserCtx()
-			} else if c.Stop == "cancel" || c.Stop == "both" || c.Stop == "precancel" {
+			} else if c.Stop == "cancel" || c.Stop == "both" || c.Stop == "precancel" || c.Stop == "cancel+graceful" {
 				o.Ctx, v1.cancel = vcontext.WithCancel(vcontext.Background())
 			}
 			if c.Stop == "precancel" {
@@ -937,7 +937,7 @@ func newPrio(c Cfg, w *vrt.World) *explore.Instance {
 
 func (m *prioMon) terminal(w *vrt.World, out vrt.Outcome, totalItems int, divw *dividerWrap) string {
 	c := m.cfg
-	if c.Mode == "open" || c.Mode == "saturate" || c.Mode == "withhold" || c.Mode == "endless" || c.Mode == "mixed" {
+	if (c.Mode == "open" || c.Mode == "saturate" || c.Mode == "withhold" || c.Mode == "endless" || c.Mode == "mixed") && !(isRough(c) && (c.Disc == "v1" || c.Disc == "s1")) {
 		return ""
 	}
 	if c.Mode == "alone" {
@@ -1278,6 +1278,23 @@ func (m *prioMon) spawnV1Control(c Cfg, v1 *v1Ctl, inputs []chan Item) {
 			v1.stop()
 			after()
 		})
+	case "stop+graceful", "cancel+graceful":
+		// a graceful stop is requested while a rough one (Stop or cancellation) is under
+		// way, from another goroutine, in any order: the rough one decides
+		vrt.Spawn("stopper", func() {
+			if c.Stop == "stop+graceful" {
+				v1.stop()
+				m.stopReturned = true
+				if c.Disc == "s1" && m.handling != 0 {
+					m.f.fail("C16", "Simple.Stop() returned while %d Handle calls are still running", m.handling)
+				}
+			} else {
+				v1.cancel()
+			}
+		})
+		vrt.Spawn("gstopper", func() {
+			v1.graceful()
+		})
 	case "both":
 		// Stop() from one goroutine, context cancellation from another, in any order
 		vrt.Spawn("stopper", func() {
@@ -1366,7 +1383,8 @@ func (m *prioMon) spawnV1Control(c Cfg, v1 *v1Ctl, inputs []chan Item) {
 //
 //	0 AddInput(new channel C, new priority)     3 RemoveInput(lowest priority)
 //	1 AddInput(new channel D, highest priority)  4 AddInput(original channel, highest priority)
-//	2 RemoveInput(highest priority)
+//	2 RemoveInput(highest priority)                5 AddInput(lowest priority's own channel, lowest priority)
+//	6 RemoveInput(a priority never registered)    7 RemoveInput(lowest priority) (again, after 3)
 //
 // each used at most once; it may stop early.
 func (m *prioMon) spawnScript(c Cfg, v1 *v1Ctl, inputs []chan Item) {
@@ -1424,7 +1442,7 @@ func (m *prioMon) spawnScript(c Cfg, v1 *v1Ctl, inputs []chan Item) {
 		for step := 0; step < c.Script; step++ {
 			vrt.Mark(vrt.Mix(uint64(used), uint64(step)))
 			var avail []int
-			for op := 0; op < 6; op++ {
+			for op := 0; op < 8; op++ {
 				allowed := len(c.Ops) == 0 && op < 5
 				for _, a := range c.Ops {
 					if a == op {
@@ -1457,6 +1475,12 @@ func (m *prioMon) spawnScript(c Cfg, v1 *v1Ctl, inputs []chan Item) {
 			case 5:
 				// register the lowest priority's own channel once more (a no-op by meaning)
 				doAdd(inputs[np-1], m.origin[np-1], lo)
+			case 6:
+				// remove a priority that was never registered (a no-op by meaning)
+				doRemove(hi + 4242)
+			case 7:
+				// remove the lowest priority (once more, if operation 3 came first)
+				doRemove(lo)
 			}
 		}
 		vrt.Mark(vrt.Mix(uint64(used), 0xd0e))
@@ -1465,5 +1489,5 @@ func (m *prioMon) spawnScript(c Cfg, v1 *v1Ctl, inputs []chan Item) {
 }
 
 func isRough(c Cfg) bool {
-	return c.Stop == "stop" || c.Stop == "cancel" || c.Stop == "both" || c.Stop == "precancel" || c.Stop == "twice"
+	return c.Stop == "stop+graceful" || c.Stop == "cancel+graceful" || c.Stop == "stop" || c.Stop == "cancel" || c.Stop == "both" || c.Stop == "precancel" || c.Stop == "twice"
 }
